@@ -210,6 +210,27 @@ pub fn c04(opts: &Opts, out: &mut Out) {
             out.oracle("C04:later-challenges-change", unchanged.is_empty(), &pkey, &format!("unchanged challenge indices {:?} of {} (0=y,1=z,2..=e_j,last=e)", unchanged, nch));
             out.oracle("C04:perturbed-rejected", !ok, &pkey, "a proof verified under a perturbed datum");
         }
+        // generator sets in which neighbouring blinding generators are EQUAL (custom sets, points and encodings in
+        // step): moving one G_k from the value of its left neighbour to that of its right neighbour is a change of a
+        // single datum like any other (an absorption that skips repeated neighbours would not see it)
+        if inst.t >= 3 {
+            for k in 1..inst.t - 1 {
+                let mk_set = |mid_is_left: bool| {
+                    let mut pg = fm_pedersen(fmrun::deg(inst.t));
+                    let left = pg.g_base_vec[k - 1].clone();
+                    let right = pg.g_base_vec[k + 1].clone();
+                    pg.g_base_vec[k] = if mid_is_left { left } else { right };
+                    pg.g_base_compressed_vec[k] = pg.g_base_vec[k].compress();
+                    pg
+                };
+                let (c1, _) = verifier_challenges(inst.transcript(), &mk_stmt(mk_set(true), inst.n), &proof);
+                let (c2, _) = verifier_challenges(inst.transcript(), &mk_stmt(mk_set(false), inst.n), &proof);
+                npert += 1;
+                let same: Vec<usize> = (0..c1.len().min(c2.len())).filter(|i| c1[*i] == c2[*i]).collect();
+                out.oracle("C04:later-challenges-change", !c1.is_empty() && c1.len() == c2.len() && same.is_empty(), &format!("{} perturb=G[{}] between the values of its two neighbours", key, k), &format!("unchanged challenge indices {:?}", same));
+                kinds.insert((inst.n, inst.m, inst.t, "G-neighbours".to_string()));
+            }
+        }
         if idx < 2 {
             out.case(format!("events+perturbations of {}: prover events {}", key, pev.len()));
         }
